@@ -204,8 +204,12 @@ AGGOP_REPL = ['=', '+=', 'Max=', '==', '|=', ':=', '?=']
 #       next to a '|', the C++ one only for the separator '|')
 #  D10  a named / `..rest` argument inside order_by(...) / limit(...)  (Python's
 #       AnnotationsFromDenotations.ShiftArgs adds 1 to a str)
+#  D17  a '..' literal left unclosed right after an escaped quote, `'a\\'` at the end of
+#       the text: Python's ParseString lets SyntaxError escape from ast.literal_eval,
+#       the C++ parser accepts the literal with the content `a\\`
 AVOID_D9 = True
 AVOID_D10 = True
+AVOID_D17 = True
 
 
 def candidates(cells):
@@ -266,6 +270,9 @@ def excluded_class(cells, c):
     t = cells[i][2]
     if AVOID_D9 and kind == 'repl_aggop' and arg == '|=':
         return 'D9_pipe_eq_operator'
+    if AVOID_D17 and kind == 'unclose_str' and t.text[0] == "'" and \
+            t.text.endswith("\\''"):
+        return 'D17_unclosed_quote_after_backslash'
     if AVOID_D10 and t.reg == 'den':
         if (kind == 'ins_stray' and arg in (':', '..')) or \
                 (kind == 'repl_op' and arg == ':'):
